@@ -160,4 +160,159 @@ theorem cellView_compile (parse : Text → Names → Py) (names : Names) (c : Py
 theorem observe_buildCode (parse : Text → Names → Py) (m : PModel) : observe (buildCode parse m) = observe m :=
   observe_mapCells _ (cellView_compile parse _) m
 
+/-! ### `build_code` after a change of the ASTs only -/
+
+/-- every cell that carries a formula object carries a formula text (what `build_code` hands to the parser) -/
+def textedCell (c : Py) : Bool :=
+  match c with
+  | .obj _ fs =>
+    match lookup fFormula fs with
+    | some (.obj _ ffs) => (match lookup fFormula ffs with | some (.str _) => true | _ => false)
+    | _ => true
+  | _ => true
+
+def textedItems : List (Text × Py) → Bool
+  | [] => true
+  | (_, c) :: r => textedCell c && textedItems r
+
+def Texted (m : PModel) : Bool :=
+  match m.cells with
+  | .dict kvs => textedItems kvs
+  | _ => true
+
+def compileCell (parse : Text → Names → Py) (names : Names) (c : Py) : Py :=
+  match formulaTextOf c with
+  | some t => withAst (parse t names) c
+  | none => c
+
+theorem buildCode_eq (parse : Text → Names → Py) (m : PModel) :
+    buildCode parse m = m.mapCells (compileCell parse (observe m).names) := rfl
+
+theorem withAst_of_noFormula (a c : Py) (h : formulaTextOf c = none) (ht : textedCell c = true) :
+    withAst a c = c := by
+  cases c with
+  | obj cl fs =>
+    simp only [formulaTextOf, textedCell, withAst] at h ht ⊢
+    cases hl : lookup fFormula fs with
+    | none => simp
+    | some x =>
+      cases x with
+      | obj fc ffs =>
+        simp only [hl] at h ht
+        cases hf : lookup fFormula ffs with
+        | none => simp [hf] at ht
+        | some y => cases y <;> simp_all
+      | _ => simp
+  | _ => rfl
+
+theorem compileCell_withAst (parse : Text → Names → Py) (names : Names) (a c : Py) (ht : textedCell c = true) :
+    compileCell parse names (withAst a c) = compileCell parse names c := by
+  unfold compileCell
+  rw [formulaTextOf_withAst]
+  cases h : formulaTextOf c with
+  | some t => simp only [withAst_withAst]
+  | none => simp only [withAst_of_noFormula a c h ht]
+
+theorem mapDict_mapDict_compile (parse : Text → Names → Py) (names : Names) (a : Py) :
+    ∀ kvs, textedItems kvs = true →
+      mapDict (compileCell parse names) (mapDict (withAst a) kvs) = mapDict (compileCell parse names) kvs
+  | [], _ => rfl
+  | (k, c) :: r, h => by
+    simp only [textedItems, Bool.and_eq_true] at h
+    simp only [mapDict, compileCell_withAst parse names a c h.1, mapDict_mapDict_compile parse names a r h.2]
+
+/-- compiling does not care about the ASTs that were there before -/
+theorem buildCode_clearAst (parse : Text → Names → Py) (m : PModel) (ht : Texted m = true) :
+    buildCode parse (clearAst m) = buildCode parse m := by
+  rw [buildCode_eq, buildCode_eq, observe_clearAst]
+  obtain ⟨cells, dn, fo, ra⟩ := m
+  cases cells with
+  | dict kvs =>
+    simp only [Texted] at ht
+    simp only [clearAst, PModel.mapCells, mapDict_mapDict_compile parse _ .none kvs ht]
+  | _ => rfl
+
+theorem textedCell_compile (parse : Text → Names → Py) (names : Names) (c : Py) :
+    textedCell (compileCell parse names c) = textedCell c := by
+  unfold compileCell
+  split
+  · rename_i t ht
+    cases c with
+    | obj cl fs =>
+      simp only [formulaTextOf] at ht
+      cases hl : lookup fFormula fs with
+      | none => simp [hl] at ht
+      | some x =>
+        cases x with
+        | obj fc ffs =>
+          have h3 : fAst ≠ fFormula := by decide
+          simp only [withAst, hl, textedCell, lookup_setField_same, lookup_setField_ne _ h3]
+        | _ => simp [hl] at ht
+    | _ => simp [formulaTextOf] at ht
+  · rfl
+
+theorem compileCell_idem (parse : Text → Names → Py) (names : Names) (c : Py) :
+    compileCell parse names (compileCell parse names c) = compileCell parse names c := by
+  unfold compileCell
+  cases h : formulaTextOf c with
+  | some t => simp only [formulaTextOf_withAst, h, withAst_withAst]
+  | none => simp only [h]
+
+theorem mapDict_compile_idem (parse : Text → Names → Py) (names : Names) :
+    ∀ kvs, mapDict (compileCell parse names) (mapDict (compileCell parse names) kvs) =
+           mapDict (compileCell parse names) kvs
+  | [] => rfl
+  | (k, c) :: r => by simp only [mapDict, compileCell_idem, mapDict_compile_idem parse names r]
+
+/-- compiling twice is compiling once -/
+theorem buildCode_idem (parse : Text → Names → Py) (m : PModel) :
+    buildCode parse (buildCode parse m) = buildCode parse m := by
+  rw [buildCode_eq parse (buildCode parse m), observe_buildCode, buildCode_eq]
+  obtain ⟨cells, dn, fo, ra⟩ := m
+  cases cells with
+  | dict kvs => simp only [PModel.mapCells, mapDict_compile_idem]
+  | _ => rfl
+
+/-! ### depth -/
+
+theorem depthF_setField_le (k : Text) (v : Py) : ∀ fs, depthF (setField k v fs) ≤ max (depthF fs) (depth v)
+  | [] => by simp [setField, depthF]
+  | (k', v') :: r => by
+    by_cases h : k' = k
+    · simp only [setField, h, if_true, depthF]; omega
+    · have := depthF_setField_le k v r
+      simp only [setField, h, if_false, depthF]; omega
+
+theorem depth_le_of_lookup (k : Text) : ∀ fs v, lookup k fs = some v → depth v ≤ depthF fs
+  | [], _, h => by simp [lookup] at h
+  | (k', v') :: r, v, h => by
+    by_cases e : k' = k
+    · simp [lookup, e] at h; subst h; simp only [depthF]; omega
+    · simp [lookup, e] at h
+      have := depth_le_of_lookup k r v h
+      simp only [depthF]; omega
+
+/-- replacing the AST by `a` nests the cell no deeper than before or than `a` under two objects -/
+theorem depth_withAst_le (a c : Py) : depth (withAst a c) ≤ max (depth c) (depth a + 2) := by
+  unfold withAst
+  split
+  · rename_i cl fs
+    split
+    · rename_i fc ffs hl
+      have h1 := depth_le_of_lookup _ _ _ hl
+      have h2 := depthF_setField_le fFormula (.obj fc (setField fAst a ffs)) fs
+      have h3 := depthF_setField_le fAst a ffs
+      simp only [depth] at h1 h2 ⊢
+      omega
+    · omega
+  · omega
+
+theorem depthF_mapDict_le (f : Py → Py) (n : Nat) (hf : ∀ c, depth c ≤ n → depth (f c) ≤ n) :
+    ∀ kvs, depthF kvs ≤ n → depthF (mapDict f kvs) ≤ n
+  | [], _ => by simp [mapDict, depthF]
+  | (k, c) :: r, h => by
+    simp only [depthF, Nat.max_le] at h
+    simp only [mapDict, depthF, Nat.max_le]
+    exact ⟨hf c h.1, depthF_mapDict_le f n hf r h.2⟩
+
 end XlVerif.Lemmas.C12
